@@ -546,9 +546,10 @@ impl Reduce {
     /// Compute the size of the reduce
     /// The size of the reduce can be the same as its input and will be at least 0
     fn size(input: &Relation) -> Integer {
+        // An aggregation without GROUP BY returns one row even on an empty input
         input.size().max().map_or_else(
             || Integer::from_min(0),
-            |&max| Integer::from_interval(0, max),
+            |&max| Integer::from_interval(0, max.max(1)),
         )
     }
     /// Get aggregate exprs
